@@ -54,6 +54,10 @@ fn variants(s: &Sprite, plan: &Plan, enc: &Encoded, t: &mut Tape) -> Vec<(&'stat
             "layer_blend" => {
                 for val in [19u64, 20, 255, 0xFFFF, 19 + (t.raw() as u64 % 0xFFEC)] {
                     v.push(("blend-mode", format!("@{}={}", f.off, val), patched(f, val)));
+                    // the same with the header's "layer opacity is valid" flag clear: an unknown blend mode stays unknown
+                    let mut b2 = patched(f, val);
+                    b2[14..18].copy_from_slice(&[0u32, 2][(val % 2) as usize].to_le_bytes());
+                    v.push(("blend-mode", format!("@{}={} header flags {}", f.off, val, val % 2 * 2), b2));
                 }
             }
             "cel_type" => {
